@@ -73,7 +73,7 @@ CLAIMS = {
          'Deductive (pyvc+z3) for modularity_finetune_und and modularity_finetune_dir, whole function bodies, all networks with positive total weight (symmetric for _und), all gamma, all start '
          'partitions with arbitrary labels, all visiting orders: the returned labels are exactly 1..k (np.unique rank contract) and the returned q equals the modularity Q(W, ci, gamma) of the '
          'returned labels: the aggregation loops are proved to build the module-by-module aggregate, and the code-independent identity q_from_aggregate (trace(w)/s - gamma sum(w/s . w/s) = Q; '
-         'proved in Lean, DESIGN Appendix A.2) closes the gap. modularity_louvain_und (hierarchy=False) is proved END TO END as well: the node-moving sweeps of a level are used modularly through the proved fragment contract modularity_louvain_und#level, and the outer loop over hierarchy levels (lists ci/q of symbolic length, np.unique relabelling, composition of label vectors, aggregation of the working matrix, formula of q, stopping test, returned pair) is proved with the invariant `working matrix = aggregate of the ARGUMENT under the current labels of the original nodes`, using the Lean-proved identity that aggregation composes (agg_compose); result: labels exactly 1..k, q = Q(argument, returned labels) unless no level was accepted (then q = -1 with singleton labels, which needs Q(singletons) <= -1 + 1e-10: impossible for gamma < 2, covered by the bounded tier). The signed routines modularity_finetune_und_sign and modularity_louvain_und_sign (whole functions, all five qtypes at once) are proved the same way for the signed quality d0 Q+ - d1 Q-: labels 1..k, returned q = signed quality of the returned labels (finetune: the definition of the quality unfolded as a double sum; Louvain: from the aggregated positive/negative matrices), and d0, d1, s0, s1 are the factors of the requested type incl. the adjustment for an absent sign. community_louvain (default objective B=\'modularity\', default start or ANY given start partition, non-negative weights, directed or undirected) is proved end to end as well: construction and symmetrisation of the kernel, initial bookkeeping, first-iteration branch, composition of labels, aggregation, q = trace: the returned q is QrawB(kernel, labels)/s, which is the modularity of the returned labels (Lean: Q_from_symmetrised_kernel). All other detectors (modularity_louvain_dir = known finding, the other objectives of community_louvain, hierarchy=True output, probtune, community_louvain objectives, spectral '
+         'proved in Lean, DESIGN Appendix A.2) closes the gap. modularity_louvain_und (hierarchy=False) is proved END TO END as well: the node-moving sweeps of a level are used modularly through the proved fragment contract modularity_louvain_und#level, and the outer loop over hierarchy levels (lists ci/q of symbolic length, np.unique relabelling, composition of label vectors, aggregation of the working matrix, formula of q, stopping test, returned pair) is proved with the invariant `working matrix = aggregate of the ARGUMENT under the current labels of the original nodes`, using the Lean-proved identity that aggregation composes (agg_compose); result: labels exactly 1..k, q = Q(argument, returned labels) unless no level was accepted (then q = -1 with singleton labels, which needs Q(singletons) <= -1 + 1e-10: impossible for gamma < 2, covered by the bounded tier). The signed routines modularity_finetune_und_sign and modularity_louvain_und_sign (whole functions, all five qtypes at once) are proved the same way for the signed quality d0 Q+ - d1 Q-: labels 1..k, returned q = signed quality of the returned labels (finetune: the definition of the quality unfolded as a double sum; Louvain: from the aggregated positive/negative matrices), and d0, d1, s0, s1 are the factors of the requested type incl. the adjustment for an absent sign. community_louvain (default objective B=\'modularity\', default start or ANY given start partition, non-negative weights, directed or undirected) is proved end to end as well: construction and symmetrisation of the kernel, initial bookkeeping, first-iteration branch, composition of labels, aggregation, q = trace: the returned q is QrawB(kernel, labels)/s, which is the modularity of the returned labels (Lean: Q_from_symmetrised_kernel). All other detectors (modularity_louvain_dir = known finding, a user-supplied objective matrix for community_louvain (its other built-in objectives potts / negative_sym / negative_asym are proved like modularity: q = objective of the returned labels for the documented kernel, pinned cell by cell), hierarchy=True output, probtune, community_louvain objectives, spectral '
          'modularity_und/_dir and the given-partition branches) are bounded only: independent O(n^2) reference formulas on all graphs n<=4 (weights {0,1,2}), all start partitions, all visiting '
          'orders n<=4, gamma in {.8,1,1.3}, all qtypes.',
          PROOF_NOTE + ' Modularity lemmas (gain, q_from_aggregate, relabelling, node-to-module sum identities) are assumed in SMT and proved separately in Lean; nonlinear products kept uninterpreted.',
@@ -82,7 +82,7 @@ CLAIMS = {
          'Deductive (pyvc+z3) for modularity_finetune_und and modularity_finetune_dir: loop invariant KInv (node-to-module sums knm, node degrees, module degrees equal their definitions for the '
          'current labels: established by the initialisation loops, preserved by every move via the single-label-change update axioms) and Q(current labels) >= Q(start labels): the gain the '
          'code computes is proved equal to the expression of the gain lemma (Qraw_move + nm_modularity, proved in Lean, DESIGN Appendix A), a move is accepted only if it exceeds 1e-10, hence '
-         'every accepted move raises Q; the final relabelling does not change Q. For modularity_louvain_und and community_louvain ONE hierarchy level (initialisation of the bookkeeping + all node-moving sweeps) is proved the same way as a fragment contract for an arbitrary working matrix / objective matrix (assumed at level entry: symmetric aggregate, s = its total; consistent Hnm); the same fragment contract on modularity_louvain_dir leaves exactly the obligations of the known finding open (knm_i initialisation, exchanged updates). For modularity_louvain_und the levels are COMPOSED deductively (whole-function contract using the level fragment modularly; invariant Q(argument, current labels of the original nodes) >= Q(argument, singletons), via the Lean-proved composition of aggregation): the returned partition is never worse than singletons, for all symmetric networks with positive total weight, all gamma, all visiting orders, any number of levels. modularity_louvain_und_sign is composed the same way (signed quality never below singletons, all qtypes). community_louvain (B=\'modularity\') likewise, from the default start and from any given start partition: objective and modularity never below the (canonicalised) start. Its other objectives, and hierarchy=True output, are bounded only: a monitor woven into the real '
+         'every accepted move raises Q; the final relabelling does not change Q. For modularity_louvain_und and community_louvain ONE hierarchy level (initialisation of the bookkeeping + all node-moving sweeps) is proved the same way as a fragment contract for an arbitrary working matrix / objective matrix (assumed at level entry: symmetric aggregate, s = its total; consistent Hnm); the same fragment contract on modularity_louvain_dir leaves exactly the obligations of the known finding open (knm_i initialisation, exchanged updates). For modularity_louvain_und the levels are COMPOSED deductively (whole-function contract using the level fragment modularly; invariant Q(argument, current labels of the original nodes) >= Q(argument, singletons), via the Lean-proved composition of aggregation): the returned partition is never worse than singletons, for all symmetric networks with positive total weight, all gamma, all visiting orders, any number of levels. modularity_louvain_und_sign is composed the same way (signed quality never below singletons, all qtypes). community_louvain (B=\'modularity\') likewise, from the default start and from any given start partition: objective and modularity never below the (canonicalised) start. The built-in objectives potts / negative_sym / negative_asym are proved the same way (objective never below the start). A user-supplied objective matrix, and hierarchy=True output, are bounded only: a monitor woven into the real '
          'functions compares the claimed gain of every move with the exact change of an independent reference Q (all graphs n<=4, all start partitions, all visiting orders, hierarchy levels).',
          PROOF_NOTE + ' Gain lemma and sum identities assumed in SMT (Lean-proved); nonlinear products kept uninterpreted with sign axioms for quotients.',
          'pyvc + z3 + gain lemma for finetune_und/_dir/_und_sign and modularity_louvain_und end to end; level fragments for the other Louvain routines; woven per-move gain monitor over exhaustive small scopes (bounded) for the rest', '5/C07'),
